@@ -20,22 +20,27 @@ CLAIMED = {
  "C03": dict(text="Constraint-free engine full on the model: C03_unify_sound_partial (subtype mode, the only one Type.apply uses: solutions only shrink and the requested relation holds "
         "under every remaining solution), C03_fix_sound, C03_instantiate_sound, C03_apply_sound, C03_apply_chain (every argument a subtype of its parameter, result = instantiated result), "
         "C03_base_bound_never_compound, C03_witness_exists / C03_choice_exists / C03_acyclicB_sound (a witnessing instantiation exists for every choice within the reported bounds, for acyclic stores), "
-        "C03_concrete_link (the engine on variable-free types is the concrete model of C02). Partial: schemas with deferred subtype/elimination constraints are covered by correspondence (re-check order "
-        "fixed by the hook) and by the oracle (corner instantiations of the implementation's own final signature), not by a theorem; unify(subtype=False) has proved counterexamples "
+        "C03_concrete_link (the engine on variable-free types is the concrete model of C02). WITH deferred constraints (Props/C03Constr.lean, one simultaneous induction over all twelve functions of the unifier with the invariant OkStoreC): "
+        "C03c_unify_sound / C03c_unify_flags_sound (counterexamples show the subtype conclusion needs skip_basic = skip_wildcard = False), C03c_check_constraints_sound, C03c_fulfill_sound, C03c_fix_sound, "
+        "C03c_instantiate_sound (schemas with constraints and wildcards), C03c_apply_sound, C03c_apply_chain, C03c_apply_chain_instantiation, C03c_base_bound_never_compound. "
+        "Partial: 'every constraint whose variables were all resolved holds' is proved for fulfilled subtype constraints on wildcard-free stores (C03c_fulfilled_sub_holds_partial; "
+        "C03c_match3_wildcards_unsound shows why) and for elimination constraints only in local form (the fulfil call that narrows to one alternative unifies with it); the rest of that clause is "
+        "decided by correspondence (re-check order fixed by the hook) and the oracle (corner instantiations of the implementation's own final signature); unify(subtype=False) has proved counterexamples "
         "(C03_unify_plain_unsound_*), it is not reachable from Type.apply.",
         technique="Lean 4 proof (simultaneous induction on fuel over the mutual unifier, store invariants, valuation semantics) + model/implementation correspondence check",
         ref="6/C03"),
- "C04": dict(text="Full on the model for languages whose operator signatures carry no deferred constraints: C04_stack_machine (generic invariant lemma for parse_expr over any builder), "
+ "C04": dict(text="Full on the model: C04_stack_machine (generic invariant lemma for parse_expr over any builder), "
         "C04_nodes / C04_parseTyped_nodes / C04_every_node (every application node of the parsed tree: function part has a function type whose input is a supertype of the argument's type and whose "
         "output is the node's type, under every solution of the final store), C04_fix_nodes (preserved by Expr.fix), C04_call_nodes (programmatic construction), C04_annotation (e : T gives type(e) <= T), "
-        "C04_leaf_instance (an operator leaf is an instance of its declared signature). Partial: constrained signatures by correspondence + oracle (tree re-checked at the corners of the residual bounds, "
-        "accept/reject families with an independent subtype reference).",
+        "C04_leaf_instance (an operator leaf is an instance of its declared signature). The same sixteen theorems hold for operator tables whose signatures carry constraints (Props/C04Constr.lean, C04c_*, built on the C03c soundness theorems). "
+        "Oracle: tree re-checked at the corners of the residual bounds, accept/reject families with an independent subtype reference, two unrelated lineages.",
         technique="Lean 4 proof (stack-machine invariant over an abstract builder, reuse of the C03 soundness theorems) + model/implementation correspondence check",
         ref="6/C04"),
  "C05": dict(text="Full on the model (constraint-free): C05_above_chain / C05_below_chain (closed form: lower bound = greatest, upper bound = least argument of the chain), C05_above_perm / C05_supply_perm "
         "(order independence, also for interleaved covariant and contravariant supplies), C05_crossing_fails, Top/Bottom cases, C05_mono / C05_apply_mono (specialising an argument keeps success and "
         "never generalises the result), C05_apply_identity_chain (x ** ... ** x applied to a chain returns the least upper bound), C05_fix_least / C05_fix_extremal (fixing a single-polarity type yields "
-        "the least instantiation within the bounds; counterexamples show single polarity and independence are needed). Tie: chain tuples in every permutation and specialisation, closed-form oracle.",
+        "the least instantiation within the bounds; counterexamples show single polarity and independence are needed). With one subtype constraint on x ** ... ** x (Props/C05Constr.lean): same closed form, least result, order independence, rejection above the bound; several / elimination constraints and the "
+        "fix_least family with constraints are decided by correspondence only. Tie: chain tuples in every permutation and specialisation, closed-form oracle.",
         technique="Lean 4 proof (state machine on (lower, upper, bound), permutation invariance from a closed form) + model/implementation correspondence check",
         ref="6/C05"),
  "C06": dict(text="Full on the model for linear alternatives: C06_fits_iff (the decidable 'fits' is exactly: some instance of the alternative is a supertype of the argument), C06_match3_eliminates "
@@ -46,14 +51,18 @@ CLAIMED = {
         ref="6/C06"),
  "C07": dict(text="On the graph model: C07_queried_are_emitted / C07_membership_in_vocabulary (predicate names re-extracted from graph.py, query.py and the vocabulary on every run), C07_op_node, "
         "C07_annotate_subtypeOf, C07_canonical_type_node, C07_subtypeOf_exact_plain (for a canon without Top/Bottom the subtypeOf set of a node with canonical type t is exactly the canonical supertypes "
-        "of t, via C10), C07_type_memo / C07_type_once (one node per distinct type), C07_triples_mono. Partial: with Top/Bottom canonical the transitive supertypes inherit known finding D6 (D6b); "
+        "of t, via C10), C07_type_memo / C07_type_once (one node per distinct type), C07_triples_mono. C07_src_stale (a source's type is read through the final store: repaired defect D30). Partial: with Top/Bottom canonical the transitive supertypes inherit known finding D6 (D6b), excused only "
+        "where the model - which has the same look-through - agrees with the implementation; "
         "the membership unions and non-canonical types are decided by correspondence (graph isomorphism with the model over random with_* switches) and the oracle.",
         technique="Lean 4 proof (step-sequence invariants of the graph generator, reuse of C10/C14) + generated constants + model/implementation correspondence check (graph isomorphism)",
         ref="6/C07"),
  "C08": dict(text="On the graph model (types off, other switches arbitrary): C08_spine_one_node, C08_first_order (the from-edges equal those of an independently written spine layout flowFO), "
-        "C08_first_order_tree (one node per operator application, one per source, out-degree = number of arguments, nothing else), C08_hof_one_level_partial, C08_hof_nested, C08_hof_general "
-        "(higher-order expressions of any nesting depth: internal nodes and edges equal the declarative layout flowHO), C08_edges_config_independent. Not covered by a theorem: shared objects, "
-        "source-headed spines, abstractions (expanded composites) - these are decided by correspondence and by the independent Python data-flow construction.",
+        "C08_first_order_tree (one node per operator application, one per source, out-degree = number of arguments, nothing else), C08_hof_one_level_partial, C08_hof_nested, C08_hof_general / C08_hofS_general "
+        "(higher-order expressions of any nesting depth, also with function-typed sources passed, repeatedly: internal nodes and edges equal the declarative layout flowHO; C08_hofS_repeated states when an "
+        "internal node receives its own argument's node), C08_hof_wiring (the local rule for any expression and state), C08_edges_config_independent; abstractions (expanded composite operators, "
+        "Model/GraphAbs.lean): C08a_embed (the abstraction-aware generator agrees with add_expr's model on abstraction-free expressions), C08a_params, C08a_lam_wiring, C08a_lam_identity, C08a_arg_wiring. "
+        "Not covered by a theorem: shared objects and source-headed spines in the any-depth theorem, abstractions at any depth - decided by correspondence (the model builds the graph of every expansion "
+        "with the minimal switches) and by the independent Python data-flow construction under the minimal and a random switch combination.",
         technique="Lean 4 proof (simulation of add_expr by a pure edge function, incremental-to-whole-spine invariant) + model/implementation correspondence check (graph isomorphism)",
         ref="6/C08"),
  "C10": dict(text="On the canon model: C10_succ_sound_* / C10_links_sound / C10_reach_sound (every reported link is a strict sub/supertype, all configurations), C10_succ_complete_step, "
@@ -67,15 +76,17 @@ CLAIMED = {
         "C15_no_redex / C15_normal_partial (the result has no composite operator and no reducible application, for definitions in dependency order; counterexample for a recursive definition), "
         "C15_idempotent (expanding again changes nothing), C15_sound / C15_primitive_is_reduction (only unfolding and beta steps), C15_confluent + C15_normal_form_unique + C15_equals_normal_form "
         "(Church-Rosser: the result IS the normal form, however computed), C15_complete / C15_none_iff_no_normal_form, C15_standard_agrees (an independent applicative-order evaluator agrees), "
-        "C15_fuel_monotone. Partial: the model is tied to primitive() on expressions whose definitions use every parameter at most once; definitions that duplicate a parameter crash the "
-        "implementation (known finding D8) and are outside the model; type preservation and 'expands without type error in a language that validates' are decided by the oracle.",
+        "C15_fuel_monotone. The model is tied to primitive() on all generated expressions, including definitions that duplicate a parameter (these crashed the implementation until defect D8 was repaired by "
+        "copy-on-substitution). Partial: type preservation and 'expands without type error in a language that validates' are decided by the oracle.",
         technique="Lean 4 proof (substitution lemmas, parallel reduction / Church-Rosser, standardisation) + model/implementation correspondence check + independent normaliser oracle",
         ref="6/C15"),
  "C16": dict(text="On the model (definitions are immutable data; the inference store is the only thing threaded between uses): C16_instantiate_fresh / C16_instantiate_twice_disjoint, C16_unify_frame / "
         "C16_fix_frame / C16_apply_frame / C16_definitions_untouched (only variables reachable from the current terms or freshly allocated change), C16_history_independent (instantiating a schema and "
-        "applying it to concrete arguments after ANY history gives the shifted result of the same run from the empty store), C16_history_content_irrelevant. Partial: constraint-free engine; the "
+        "applying it to concrete arguments after ANY history gives the shifted result of the same run from the empty store), C16_history_content_irrelevant. With pending constraints (Props/C16Constr.lean, C16c_*, 30 theorems): freshness of instantiation without any store hypothesis, frame and reads-only-its-region theorems for all twelve engine "
+        "functions and arbitrary flags, instantiation independent of the content of the history. Partial: the shift form of history independence is proved without constraints only; the "
         "shift statement for unify on arbitrary open terms is false of the model because of occurs-check fuel (C16_history_independent_unify_fails). Python-level aliasing is decided by "
-        "histories of parse/validate/graph/query calls on one Language followed by a probe compared with a fresh language and the model.",
+        "histories of parse/validate/graph/query calls on one Language followed by a probe compared with a fresh language and the model, a polymorphic-data-constant family, plain wildcard signatures, and "
+        "the verdict of Language.validate() after histories that close the language.",
         technique="Lean 4 proof (frame and equivariance lemmas by induction over the mutual unifier) + model/implementation correspondence over histories",
         ref="6/C16"),
  "C18": dict(text="The general statement is false of the code (known findings D14, D20, D21) and of the model (kernel-checked C18_counterexample_error_kind, C18_counterexample_result, "
@@ -88,7 +99,7 @@ CLAIMED = {
         ref="6/C18"),
  "C19": dict(text="On the model: C19_worklist / C19_worklist_mkCanon (the canon does not depend on the order the work list is processed), C19_foldl_add_perm / C19_emission_perm(_canonical) (the triple "
         "set does not depend on the order in which set-valued collections are emitted), C19_model_deterministic. Partial by nature: hash-seed and allocation-history dependence is runtime behaviour "
-        "no model exhibits; it is exercised by generating every graph in fresh interpreters (PYTHONHASHSEED 0-3, random; after unrelated graphs; reversed listing) and comparing canonical digests.",
+        "no model exhibits; it is exercised by generating every graph in fresh interpreters (PYTHONHASHSEED 0-3, random; after unrelated graphs; reversed listing) and comparing canonical digests of the literal text with only the running numbers removed, printed order included (this found and fixed D28).",
         technique="Lean 4 proof (permutation invariance of set-emitting folds) + cross-interpreter determinism check",
         ref="6/C19"),
  "C09": dict(text="Full for the repaired add_from: C09_step proves that one add_from call (plain and recursive branch, cycles allowed) keeps "
@@ -101,7 +112,7 @@ CLAIMED = {
         "C14_resolve; text half - C14_text_roundtrip (parse_type's stack machine applied to the printed tokens of any printable concrete non-function type "
         "returns the type, via the generalised invariant C14_text_invariant), C14_text_injective, C14_alias_plain / C14_alias_param (an alias in type text "
         "denotes its definition), for every language, arity and nesting depth. Tie: uri / parse_type_uri / str(t) / parse_type / aliases of the implementation "
-        "against the model on generated languages; the printed string is tied to the token list by tokenizing it on both sides.",
+        "against the model on generated languages; the printed string is tied to the token list by tokenizing it on both sides; names that clash after the stripping of trailing underscores must be refused.",
         technique="Lean 4 proof (generalised work-list and stack-machine invariants, mutual structural induction) + model/implementation correspondence check",
         ref="6/C14"),
  "C11": dict(text="On the query model: C11_eval_iff / C11_solve_sound / C11_solve_complete (the evaluator is a correct basic-graph-pattern semantics), C11_assign_reachable, C11_query "
@@ -117,22 +128,23 @@ CLAIMED = {
         "recorded source types the whole graph is equal), C12_record_order (source_types is order-independent when the recorded types are totally ordered), counterexamples "
         "C12_sourceTypes_order_visible / _semantic (known finding D26), C12_nodemap_functional / _total, C12_shared_once / _first (one node per resource, shared when consumed more than once), "
         "C12_output_marked / C12_inputs_marked / C12_class, C12_inline_structure + C12_addExpr_shared_transparent (a tool's inputs denote the producers' whole expressions; the workflow graph is the "
-        "graph of the inlined expression with sharing), C12_no_passthrough_link / _flat, C09_workflow_graph. Partial: typing inside the tools is inherited from the inference model through "
-        "correspondence; the RDF (WorkflowGraph) front end is decided by the oracle (isomorphic to the in-memory form).",
+        "graph of the inlined expression with sharing), C12_no_passthrough_link / _flat, C09_workflow_graph. C12_final_exprs / C12_expr_once(_passthrough) (the memo table under re-fixing without passthrough). Partial: typing inside the tools is inherited from the inference model through "
+        "correspondence; 'each source gets the most general type acceptable to all its uses' is decided by an oracle (acceptable to every tool, not below an independently computed valid typing, no bound lost); "
+        "workflows whose sources have function types are not generated (aliasing of type objects is not modelled); the RDF (WorkflowGraph) front end is decided by the oracle (isomorphic to the in-memory form).",
         technique="Lean 4 proof (permutation invariance, memo-table invariants, step-sequence invariants of add_workflow) + model/implementation correspondence check (graph isomorphism)",
         ref="6/C12"),
  "C13": dict(text="Structure full on the model (annotation-free renderings): C13_parse_spine (the stack machine started on any stack consumes the rendering of a "
         "spine and leaves its denotation), C13_parse_render, C13_redundant_parens, C13_paren_prefix, C13_call_atoms, C13_render_tree / C13_call_eq_juxtaposition "
         "(f x y = (f x) y = f(x, y) = ((f)(x))(y)), C13_inputs, C13_source(_fresh), C13_tokens (tokenizer on any layout), C13_comments, C13_trivia, C13_text(_trivia). "
         "Partial: annotations `e : T`, the typed half (same types as programmatic construction) and Expr.match are covered by correspondence (typed builder model vs "
-        "implementation on every notation and on Python construction) and by the oracle, not by a theorem.",
+        "implementation on every notation and on Python construction) and by the oracle (incl. defaults=True with fewer inputs supplied, and re-parsing the same text: `-` is fresh), not by a theorem.",
         technique="Lean 4 proof (stack-machine invariant generalised over the stack, induction over nested spines) + model/implementation correspondence check",
         ref="6/C13"),
  "C17": dict(text="Parsers full on the model: C17_parseType_no_internal / C17_parseExpr_no_internal (for every token list neither stack machine reaches an "
         "assertion/index/value error site, for any total expression builder), C17_parseType_consumes, C17_parseExpr_fuel_irrelevant (termination: the model's fuel "
         "never runs out, one token at least is consumed per step). Engine partial: instantiate/apply/unify/fix with constraints are tied by correspondence on "
         "constraint-heavy schemas and checked by the oracle (exception class in the declared families, 5 s bound per case); the interpreter recursion limit is outside "
-        "the model (known finding D11).",
+        "the model (known finding D11). Two assertion failures found on the unchanged tree (D25 under a re-check order, D29 with a bare-variable alternative) were repaired.",
         technique="Lean 4 proof (loop invariants on the parser stacks, suffix/fuel argument) + model/implementation correspondence check + declared-error oracle",
         ref="6/C17"),
  "C20": dict(text="Full for the repaired Bag.add: over any decidable partial order C20_union_specific/general (kept = minimal/maximal elements), "
